@@ -1,6 +1,8 @@
 (** * C05 - contracts observe the same argument values the body receives.
     Property theorems only; proofs live in Proofs/. *)
 From ICV Require Import Base Generated Bind DictLemmas BindRefine BindAgree.
+From ICV Require Checker CheckerCase CheckerOracle CheckerTypeError.
+Import Checker CheckerCase CheckerOracle CheckerTypeError.
 Open Scope string_scope.
 Open Scope list_scope.
 
@@ -62,3 +64,22 @@ Proof.
   eexists. split; vm_compute; reflexivity.
 Qed.
 Print Assumptions C05_refuted_surplus.
+Print Assumptions C05_refuted_posonly.
+
+(** whole calls: the library's own TypeError has a reason that can be read off the declarations and the call - a
+    parameter the call binds is available to every contract, whichever contracts were evaluated before (the clause
+    [legit_type_error] of [spec_C05_call], of the model, for every case whose invariants' error factories take the
+    instance only) *)
+Theorem C05_type_error_has_a_reason c :
+  CheckerTypeError.wf_case c ->
+  match snd (run_case c) with
+  | inr (XLib cls _) => implb (String.eqb cls "TypeError") (legit_type_error c (fst (run_case c)))
+  | _ => true
+  end = true.
+Proof. exact (type_error_clause_sound c). Qed.
+Print Assumptions C05_type_error_has_a_reason.
+
+Example C05_type_error_nonvacuous :
+  CheckerTypeError.wf_case ex_ty_case /\ snd (run_case ex_ty_case) = inr (XLib "TypeError" None)
+  /\ legit_type_error ex_ty_case (fst (run_case ex_ty_case)) = true.
+Proof. exact type_error_nonvacuous. Qed.
